@@ -64,6 +64,16 @@ u_float_str = z3.Function("u_float_str", R, S)
 u_pow = z3.Function("u_pow", R, R, R)
 u_lower = z3.Function("u_lower", S, S)
 u_int_of_real = z3.Function("u_int_of_real", R, I)
+# reversal of a sequence: an uninterpreted function (so reversing the same sequence twice gives the same term) whose
+# defining facts (length, element i = element n-1-i) are asserted by the executor at each use
+u_rev = z3.Function("u_rev", SeqV, SeqV)
+
+
+def rev_facts(s):
+    r = u_rev(s)
+    qi = z3.Const("q!rev", I)
+    return z3.And(z3.Length(r) == z3.Length(s),
+                  z3.ForAll([qi], z3.Implies(z3.And(qi >= 0, qi < z3.Length(s)), r[qi] == s[z3.Length(s) - 1 - qi])))
 
 EMPTY_KP = z3.K(S, z3.BoolVal(False))
 EMPTY_KV = z3.K(S, VNone)
